@@ -238,4 +238,35 @@ theorem litTy_ok (cfg : Cfg) : TyOK W0 DW0 C0 cfg false litTy := by
             simp [load, loadLiteral, hst, boolSensitive, typedMem, Val.tag, Val.memOf, Val.pyEq]
 
 
+/-- `list[int] | Tree` under strict coercion: the cases have different outer forms -/
+def listOrTree : Ty := .union [.iter .list true (.scalar "int"), .model "Tree"] ["list", "Tree"]
+
+theorem listOrTree_ok (t : DebugTrail) (j : Bool) : TyOK W0 DW0 C0 ⟨t, true⟩ j listOrTree := by
+  refine TyOK.union (by simp [isSingleOptional, isNoneTy]) ?_ ?_
+  · intro u hu
+    simp only [List.mem_cons, List.not_mem_nil, or_false] at hu
+    rcases hu with rfl | rfl
+    · exact TyOK.iter TyOK.scalar
+    · exact TyOK.model
+  · intro x hx
+    cases hx with
+    | union ht hxt =>
+      simp only [List.mem_cons, List.not_mem_nil, or_false] at ht
+      rcases ht with rfl | rfl
+      · refine ⟨[], _, [.model "Tree"], rfl, hxt, .inr ⟨?_, ?_⟩, fun _ _ _ _ _ u hu => by cases hu⟩
+        · intro vs h; simp [literalVals] at h
+        · cases hxt with
+          | iter _ _ => rfl
+      · refine ⟨[.iter .list true (.scalar "int")], _, [], rfl, hxt, .inr ⟨?_, ?_⟩, ?_⟩
+        · intro vs h; simp [literalVals] at h
+        · cases hxt with
+          | model _ _ _ => rfl
+        · intro n d d' hd htr u hu
+          simp only [List.mem_cons, List.not_mem_nil, or_false] at hu
+          subst hu
+          obtain ⟨kvs, rfl⟩ := rt_dump_model_shape hd
+          obtain ⟨e, he⟩ := rt_reject_iter_strict (W := W0) (cfg := ⟨t, true⟩) 0 .list true
+            (.scalar "int") rfl (.inl (rt_trav_dict_shape htr))
+          exact ⟨1, e, he⟩
+
 end Adaptix.Morph.C01
